@@ -57,6 +57,11 @@ CHECKS = {
          "Held on every explored stream: lengths around 50/100/1000 in three valid/invalid mixes, all ordered pairs of an 18-element pool, every graph-switching pattern of length <= 4 over existing/missing/schema graphs, 200 / 5000 random streams; InsertCount and ErrorCount equal the numbers of valid and invalid elements. Same id twice in one write batch with a different shape is a known finding and excluded.",
          "Engine vs engine through the public gRPC API; validity of an element is decided by the documented rules (harness/model/graph.go ValidElem).",
          "5/C18"),
+ "C19": ("exploration",
+         "runtime monitor with a direct-computation oracle: each aggregate() step is executed by the real engine in worker processes and its rows are checked against a calculator fed with the rows of the same traversal without aggregate(); independence is checked by re-running each aggregation alone",
+         "Held on every explored (multiset, aggregation set): 22 aggregation specs x 11 value multisets, all pairs and triples of aggregation kinds, buffer-boundary row counts (999/1000/1001), 1500 / 20000 random multisets with 1-3 aggregations.",
+         "Trusted: the 150-line calculator in c19.go. Percentiles are checked for order and range only (t-digest is approximate); numeric text is not generated.",
+         "5/C19"),
 }
 
 NOT_YET = "check not built yet in this session (design in DESIGN.md section 5); claimed once the monitor exists and is silent on the unchanged tree"
